@@ -210,6 +210,12 @@ def grid(prop, quick, seed=0):
     if prop == 'C10':
         # each opt-in flag alone, and applied before / after the other builder calls
         flags += ['ext=1', 'buffer=1', 'ext=1 cfgfirst=1', 'buffer=1 cfgfirst=1']
+        # many EXT emissions with only EXT enabled (an argument byte read as an opcode is a buffer opcode 2 times in 256)
+        for P in range(2, 6):
+            for sd in range(250 if quick else 2500):
+                jobs.append('P=%d seed=%d min=150 max=400 ext=1' % (P, sd))
+            for sd in range(40 if quick else 400):
+                jobs.append('P=%d seed=%d min=150 max=400 buffer=1' % (P, sd))
     if prop in ('C04', 'C06', 'C09', 'C10'):
         mutsets += ['mut=' + ','.join(MUTS) + ' rate=1.0 unsafe=1', 'mut=typeconfusion,memoindex rate=0.7 unsafe=1']
     if prop == 'C08':
@@ -233,7 +239,7 @@ def grid(prop, quick, seed=0):
                 out.append('P=%d seed=%d min=4000 max=4001 calls=seed;seed;freshseed' % (P, sd))
         return out
     if prop == 'C11':
-        mutsets += ['mut=stringlen rate=1.0']
+        mutsets += ['mut=stringlen rate=1.0', 'mut=memoindex,typeconfusion rate=0.5 unsafe=1', 'unsafe=1']
         ranges += ['min=2 max=2', 'min=3 max=3']
     combos = list(itertools.product(range(6), ranges, mutsets, flags))
     if prop == 'C11':
@@ -270,8 +276,8 @@ def grid(prop, quick, seed=0):
         if ('min=3000' in r or 'min=30000' in r) and f != '':
             continue
         per = inputs if (r == '' and m == '' and f == '') else rnd.sample(inputs, 6 if quick else 24)
-        if prop == 'C11' and r in ('min=0 max=0', 'min=1 max=2', 'min=5 max=3', 'min=2 max=2', 'min=3 max=3') and 'stringlen' in m:
-            per = ['seed=%d' % k for k in range(600 if P == 1 else 60)]
+        if prop == 'C11' and r in ('min=0 max=0', 'min=1 max=2', 'min=5 max=3', 'min=2 max=2', 'min=3 max=3') and ('stringlen' in m or 'unsafe=1' in m):
+            per = ['seed=%d' % k for k in range(600 if (P == 1 and 'stringlen' in m) else 60)]
         if 'min=30000' in r or 'min=3000' in r or 'min=9000' in r:
             per = ['seed=0', 'seed=1', 'seed=2', 'seed=3', 'hex=', 'hex=ff01']
         for i in per:
@@ -293,11 +299,14 @@ def find_c07(quick, seed):
         for sd in range(3 if quick else 12):
             jobs.append('P=%d seed=%d min=4500 max=4500' % (P, sd))
             jobs.append('P=%d seed=%d min=4500 max=4500 mut=offbyone,memoindex rate=0.5' % (P, sd))
+    # second process: the same jobs in the opposite order, so that anything a process remembers from the
+    # generators it ran before (a process-wide cache, a global counter) shows up as a difference too
     a = run_jobs(jobs)
-    b = run_jobs(jobs)
-    for (j, x), (_, y) in zip(a, b):
+    b = dict(run_jobs(list(reversed(jobs))))
+    for j, x in a:
+        y = b.get(j)
         if x != y:
-            return j, x, 'C07 two processes returned different bytes for the same configuration and entropy (%d vs %d hex chars)' % (len(x), len(y))
+            return j, x, 'C07 two processes (job list run forwards / backwards) returned different bytes for the same configuration and entropy (%d vs %d hex chars)' % (len(x), len(y or ''))
     return None
 
 
